@@ -118,9 +118,10 @@ def sort_of(t):
         return _dt("ExcV", lambda: z3.DeclareSort("ExcV"))
     if isinstance(t, Opt):
         def b():
-            d = z3.Datatype("Opt_%s" % _mangle(t.elem.name))
-            d.declare("none")
-            d.declare("some", ("val", sort_of(t.elem)))
+            m = _mangle(t.elem.name)
+            d = z3.Datatype("Opt_%s" % m)
+            d.declare("none_%s" % m)            # constructor names are unique per datatype (SMT-LIB text round trip)
+            d.declare("some_%s" % m, ("val_%s" % m, sort_of(t.elem)))
             return d.create()
         return _dt(t.name, b)
     if isinstance(t, Seq):
@@ -128,7 +129,8 @@ def sort_of(t):
     if isinstance(t, Tuple):
         def b():
             d = z3.Datatype("Tup_%s" % _mangle(t.name))
-            d.declare("mk", *[("f%d" % i, sort_of(e)) for i, e in enumerate(t.elems)])
+            m = _mangle(t.name)
+            d.declare("mk_%s" % m, *[("f%d_%s" % (i, m), sort_of(e)) for i, e in enumerate(t.elems)])
             return d.create()
         return _dt(t.name, b)
     if isinstance(t, Map):
@@ -199,19 +201,19 @@ def none_val():
 
 
 def opt_none(t):
-    return SV(Opt(t), sort_of(Opt(t)).none)
+    return SV(Opt(t), sort_of(Opt(t)).constructor(0)())
 
 
 def opt_some(v):
-    return SV(Opt(v.t), sort_of(Opt(v.t)).some(v.e))
+    return SV(Opt(v.t), sort_of(Opt(v.t)).constructor(1)(v.e))
 
 
 def opt_is_none(v):
-    return sort_of(v.t).is_none(v.e)
+    return sort_of(v.t).recognizer(0)(v.e)
 
 
 def opt_val(v):
-    return SV(v.t.elem, sort_of(v.t).val(v.e))
+    return SV(v.t.elem, sort_of(v.t).accessor(1, 0)(v.e))
 
 
 def str_const(s):
